@@ -65,6 +65,15 @@ Check nht_refcount_eq_paths :
     ref_replay reqs a = paths_using s a.
 Print Assumptions nht_refcount_eq_paths.
 
+(* (2') The counts the kernel service task keeps (Model: svc_run, tied to
+   run_service_loop by the hx-kernel harness) are the replay used in (2). *)
+Theorem kernel_watched_count_is_replay :
+  forall (reqs : list req) (a : N), fst (svc_run reqs) a = ref_replay reqs a.
+Proof. exact svc_count_refines_spec. Qed.
+Check kernel_watched_count_is_replay :
+  forall (reqs : list req) (a : N), fst (svc_run reqs) a = ref_replay reqs a.
+Print Assumptions kernel_watched_count_is_replay.
+
 (* (3) A path whose next hop was last reported unreachable is not selectable;
    once reported reachable again it is selectable unless import policy filtered it. *)
 Theorem unreachable_nexthop_excluded :
